@@ -6,6 +6,7 @@
 import RenetVerif.Generated.Src.SendUnrel
 import RenetVerif.Lemmas.SrcEquiv.Prims
 import RenetVerif.Lemmas.SrcEquiv.CommonRepr
+import RenetVerif.Lemmas.SrcEquiv.ChanLemmas
 namespace RenetVerif.SrcEquiv
 open RenetVerif RenetVerif.RustSem
 
@@ -99,21 +100,6 @@ structure LInv (g : GPU) (rest : List Bytes) : Prop where
   sid : g.slicedId + rest.length < 2 ^ 64
   small : g.smallBytes ≤ 1208
 
-theorem varintLen_le (v : Nat) : varintLen v ≤ 8 := by
-  unfold varintLen Varint.len?
-  split
-  · simp
-  · split
-    · simp
-    · split
-      · simp
-      · split <;> simp
-
-theorem divCeil_pos {a : Nat} (h : a > C.SLICE_SIZE) : 1 ≤ divCeil a C.SLICE_SIZE := by
-  unfold divCeil
-  simp only [C.SLICE_SIZE] at *
-  omega
-
 theorem LInv_step (ch : Nat) (g : GPU) (m : Bytes) (rest : List Bytes) (h : LInv g (m :: rest)) :
     LInv (stepGPU ch g m) rest := by
   obtain ⟨h1, h2, h3, h4, h5⟩ := h
@@ -137,7 +123,6 @@ theorem LInv_step (ch : Nat) (g : GPU) (m : Bytes) (rest : List Bytes) (h : LInv
         exact ⟨by simp only [qBytes]; omega, by simp only; omega, by simp only [need]; omega, by simp only; omega,
           by simp only; omega⟩
 
-abbrev SPacket := Src.renet.packet.Packet
 
 /-- the `for slice_index in 0..num_slices` loop -/
 theorem slices_loop {ε ρ : Type} (ch id : Nat) (m : Bytes) (n : Nat)
@@ -186,33 +171,6 @@ theorem unrel_while {ε ρ : Type} (s0 : SendUnrel) (site : String)
     rw [RustSem.whileFuel, unrelLoop_cons]
     rcases hcons g m rest hinv with h | h <;> rw [h] <;>
       exact ih _ n (by simp at hf; omega) (LInv_step s0.ch g m rest hinv)
-
-theorem div_ceil_1200 {ε ρ : Type} (a : Nat) (site : String) :
-    (RustSem.div_ceil 64 a C.SLICE_SIZE site : Exec ε ρ Nat) = .val (divCeil a C.SLICE_SIZE) := by
-  unfold RustSem.div_ceil divCeil
-  rw [show C.SLICE_SIZE = 1200 from rfl, if_neg (by decide)]
-  congr 1
-  by_cases h : a % 1200 > 0
-  · rw [if_pos h]; omega
-  · rw [if_neg h]; omega
-
-theorem slice_toNats {ε ρ : Type} (m : Bytes) (a b : Nat) (site : String) (hab : a ≤ b) (hb : b ≤ m.length) :
-    (RustSem.slice (toNats m) a b site : Exec ε ρ (List Nat)) = .val (toNats ((m.drop a).take (b - a))) := by
-  unfold RustSem.slice
-  rw [if_pos ⟨hab, by rw [toNats_length]; exact hb⟩]
-  congr 1
-  simp only [toNats, List.map_take, List.map_drop, List.drop_take]
-
-theorem varint_len_eq {ε : Type} (v : Nat) (h : v ≤ Varint.MAX) : (RustSem.varint_len v : Res ε Nat) = .ok (varintLen v) := by
-  unfold RustSem.varint_len varintLen Varint.len?
-  unfold Varint.MAX at h
-  split
-  · rfl
-  · split
-    · rfl
-    · split
-      · rfl
-      · rw [if_pos (show v ≤ Varint.MAX by unfold Varint.MAX; exact h)]; rfl
 
 theorem LInv_loop (ch : Nat) : ∀ (rest : List Bytes) (g : GPU), LInv g rest → LInv (unrelLoop ch rest g) [] := by
   intro rest
